@@ -21,16 +21,16 @@ func init() {
 	prop("C06", []string{"R6", "R42", "R40", "R53", "R13", "R8", "R1a", "R43", "R68", "R82", "R98", "R95"},
 		"source and destination use the same physical row, result slices are sized by the column's physical length (R42), user functions run once per row of the frame in frame order (R40), every access goes through the index (R6); the destination replaces an existing column in its position or is appended last for frames however derived (R13); nothing else changes (R1a); FilteredApply restores the original index on the result (R43).",
 		"which built-in a name resolves to; result typing by function signature; zero/null fill of unmatched rows (follows from make's zero values plus R42's sizing; argued, not checked).")
-	prop("C07", []string{"R14", "R15", "R21", "R31", "R53", "R1a", "R1x", "R47", "R13", "R40", "R42", "R6", "R93", "R103"},
+	prop("C07", []string{"R14", "R15", "R21", "R31", "R53", "R1a", "R1x", "R47", "R13", "R40", "R42", "R6", "R93", "R103", "R105"},
 		"no temporary survives and no original column is dropped (R14); operands are applied in the order written in the binary forms, across the constructor/execute pairs (R15); function lookups are comma-ok and failures surface through Err (R21, R31); evaluation does not write the original frame or the evaluation context (R1a).",
 		"the left fold of n-ary Expr (recursive slice surgery); decoding priority in newExpr; that the function found is the right one.")
 	prop("C08", []string{"R16", "R17", "R18", "R13", "R19", "R25", "R1n", "R39", "R51", "R1r", "R73", "R82", "R93", "R98"},
 		"unequal lengths are rejected for every column order (R16); illegal names never enter a frame (R17); Slice validates 0<=start<=end<=len before slicing (R18); positions stay consistent through New/Select/Drop/Copy (R13); the string cell packing is one consistent bit layout (R19); ColumnOrder/Enums are consulted (R25); projections do not disturb the source (R1n); column names are validated before any success return (R39).",
 		"that cell values are reproduced (value level); alphabetical default order (a sort.Strings call exists; listed, not proved); byte-blob offsets in scolumn.New*.")
-	prop("C09", []string{"R6", "R42", "R44", "R63", "R70", "R13", "R84", "R85", "R98"},
+	prop("C09", []string{"R6", "R42", "R44", "R63", "R70", "R13", "R84", "R85", "R98", "R104"},
 		"every accessor translates logical row i to position index[i]: views, ToCSV, ToJSON, String, ToSQL builders, Equals (R6); Equals reads the receiver through its own index and the other column through the other index at the same logical row, for all five types, and a type mismatch is unequal (R44); column order observed through names and through positions agree (R13).",
 		"reflexivity/symmetry/transitivity as such; NaN/null equality is checked only as far as R44's shape; String's truncation; `rebuilt with New is Equal`.")
-	prop("C10", []string{"R20", "R21", "R22", "R23", "R17", "R18", "R31", "R41", "R39", "R46", "R52", "R16", "R81", "R84"},
+	prop("C10", []string{"R20", "R21", "R22", "R23", "R17", "R18", "R31", "R41", "R39", "R46", "R52", "R16", "R81", "R84", "R104"},
 		"stickiness without callbacks, Len() = -1 on error, writers refuse errored frames (R20); dynamic union types are decoded without a panicking construct: table lookups are comma-ok before the call (R21), non-comma-ok type assertions and explicit panics equal the frozen documented lists (R22, R23); illegal names and bad slice bounds are rejected (R17, R18); errors from column kernels reach Err (R31); results of failing calls are not used before the error test (R41); names are validated before any early success return (R39).",
 		"absence of implicit panics in general (index out of range, nil dereference) beyond the specific ones above; nil FilterClause/Expression arguments and zero-value clause structs.")
 	prop("C11", []string{"R1", "R2", "R47", "R65"},
